@@ -734,6 +734,11 @@ func (r *runner) drain() {
 // fault-free, drained: every request answered exactly once (flushed victims: at most once, never after the ack)
 func (r *runner) checkAnswered() {
 	for _, q := range r.reqs {
+		// a reply other than 'duplicate tag' presupposes that the handler (sess mode: the Session
+		// method) was invoked for this request - exactly once (twice is c06.dispatched-twice)
+		if !q.flush && !q.filler && q.class != "dup" && q.replies > 0 && !q.dispatched {
+			r.fail("c06.answered-without-dispatch", fmt.Sprintf("request %d (tag %d) was answered although the handler / session was never called for it", q.rid, q.tag))
+		}
 		switch {
 		case q.flushedBy != nil && q.flushedBy.ackTaken, q.maybeFlushed:
 			// flushed: zero or one reply, already checked for "after ack"
